@@ -3,6 +3,10 @@ import json, os
 V = os.path.dirname(os.path.dirname(os.path.abspath(__file__)))
 props = [json.loads(l) for l in open(os.path.join(V, "properties.jsonl"))]
 CLAIMED = {
+ "C12": dict(
+   text="Coq: the reflection() methods are modelled as a function from the schema tree to a value of the built-in reflection schema; reflection_faithful proves that the whole tree - every struct, field (name, id, flattened type chain, unit, range, position), enumerator, binding with extension fields and signal blocks, service and method - can be read back exactly from the record (hence reflection is injective), and reflection_roundtrip is the C01 theorem instantiated at the reflection schema, which is regenerated from reflection.fcp by the real parser on every run and must equal the modelled one by reflexivity. Tie: fcp.reflection() of generated schemas with every node kind, its encoding and the decoded record are compared in Coq with the model, and each record is checked to be in range of the regenerated schema.",
+   note="Trusted: as C01; str() of extension values is Python's; the in-range condition (ids < 2^32, enum values and positions in i32) is checked per case, not proved for all trees: enumerator values outside i32 are the known finding enum-value-i32.",
+   technique="Coq proof (left inverse of the reflection function; C01 instance at the regenerated schema) + record/bytes correspondence", ref="§5 C12"),
  "C05": dict(
    text="Coq proof over the model of dbc_writer (_make_signals, write_dbc) that whenever generation succeeds every message of every bus file is the description of one CAN binding on that bus - id, name, ceil(bits/8) bytes, one signal per layout leaf with the leaf's position (+7 for Motorola), width, signedness, float marking, byte order, unit and multiplexing (dbc_describes_layout) - that every CAN binding appears in the file of its bus (dbc_bus_partition), that a frame packed per the layout decodes through the Intel reading of each leaf's signal to the packed value for every layout and every value list (dbc_decodes_packed_le, using the tiling theorem of C04), and that the Motorola start bit of a byte-aligned whole-byte signal selects exactly its bytes MSB first (finite domain, evaluated). Tie: generated DBC text is read back by an own reader and by cantools, compared in Coq with the model; frames packed by a reference packer are decoded by cantools and compared in Coq with the DBC semantics model (Intel, Motorola, two's complement).",
    note="Trusted: Coq kernel+vm_compute; cantools' text rendering is read back, not modelled; big-endian only on byte-aligned whole-byte leaves, one-multiplexer multiplexing; float/multiplexed frames not decoded.",
